@@ -117,6 +117,10 @@ func DecodeAttributeQuery(request string) (*samlp.AttributeQueryType, error) {
 		return nil, err
 	}
 
+	if attrEnv.Body.AttributeQuery == nil {
+		return nil, fmt.Errorf("no attribute query in request")
+	}
+
 	return attrEnv.Body.AttributeQuery, nil
 }
 
